@@ -960,6 +960,10 @@ fn enabled_c01(w: &RouterWorld, cfg: &Cfg, v: &mut Vec<(Act, u8)>) {
             let fs = &cfg.filters[f as usize];
             if active_sub(w, c, fs) {
                 v.push((Act::Unsub { c, f }, 0));
+                if f == 0 && cfg.variant < 2 {
+                    // publish on the own subscription and unsubscribe, one batch
+                    v.push((Act::Batch { c, kind: 5 }, 0));
+                }
             } else if active_subs(w, c) < 2 {
                 for &q in sub_qos {
                     v.push((Act::Sub { c, f, qos: q }, 0));
